@@ -35,6 +35,8 @@ type concSnapVisit struct {
 }
 
 type concSnapper struct {
+	// stop: pointers which are values published on their own (other cache entries): identity only
+	stop     map[unsafe.Pointer]bool
 	seen     map[concSnapVisit]uint64
 	out      *concSnapshot
 	growOnly func(path string) bool
@@ -93,6 +95,13 @@ func pointerFree(t reflect.Type) bool {
 // opaque types: identity only (runtime / OS objects, synchronisation primitives whose state is
 // transient, type descriptors)
 func opaqueType(t reflect.Type) bool {
+	// the reading machinery itself (reachable from decoded values which keep a handle on their file)
+	if t.PkgPath() == "seehuhn.de/go/pdf" && (t.Name() == "Extractor" || t.Name() == "Reader" || t.Name() == "Writer") {
+		return true
+	}
+	if t.PkgPath() == "verif/harness" && t.Name() == "concSnapGetter" {
+		return true
+	}
 	switch t.PkgPath() {
 	case "sync", "sync/atomic", "internal/sync", "reflect", "internal/abi", "runtime", "os", "syscall", "internal/poll", "time", "regexp", "regexp/syntax":
 		return true
@@ -147,6 +156,9 @@ func (s *concSnapper) walk(v reflect.Value, path string, depth int) (h uint64) {
 			return 11
 		}
 		p := v.UnsafePointer()
+		if depth > 0 && s.stop[p] {
+			return mix(25, uint64(uintptr(p)))
+		}
 		key := concSnapVisit{p: p, t: t}
 		if old, ok := s.seen[key]; ok {
 			// visited before (or being visited: a cycle): the same hash wherever it is met again,
@@ -315,3 +327,23 @@ func concSnapDiff(before, after *concSnapshot, allowed func(path string) bool) [
 	sort.Strings(out)
 	return out
 }
+
+// concSnapValue snapshots one published value: everything reachable from it up to (not into)
+// other published values.
+func concSnapValue(v any, stop map[unsafe.Pointer]bool) map[string]uint64 {
+	s := &concSnapper{seen: map[concSnapVisit]uint64{}, out: &concSnapshot{h: map[string]uint64{}, grow: map[string]map[uint64]uint64{}}, seed: concSnapSeed, stop: stop}
+	rv := reflect.ValueOf(v)
+	name := "nil"
+	if rv.IsValid() {
+		name = rv.Type().String()
+		if rv.Kind() == reflect.Pointer && !rv.IsNil() {
+			name = rv.Elem().Type().Name()
+		}
+		s.walk(rv, name, 0)
+	}
+	return s.out.h
+}
+
+// concNilHashes: what record() stores for a path holding a single nil interface / nil pointer /
+// nil slice
+var concNilHashes = map[uint64]bool{mix(13, 0x2545f4914f6cdd1d): true, mix(11, 0x2545f4914f6cdd1d): true, mix(17, 0x2545f4914f6cdd1d): true}
